@@ -47,6 +47,8 @@ ASSUME = [
     "batch size 0 is not driven (the statement quantifies 1..N); PKWare and highly repetitive large contents are not used (known findings of C01/C03 would intrude)",
     "parallel::{extract_from_multiple_archives, extract_multiple_from_multiple_archives, search_in_multiple_archives} carry no task hook: their schedules are perturbed only by "
     "archive size asymmetry and CPU contention and are not observed (counter multi_thread_configs_without_trace_hook); process_archives_parallel is traced through the harness' processor",
+    "TSan layer: reports whose stack contains a crossbeam_epoch frame are suppressed (fence-based reclamation inside rayon's dependency, invisible to ThreadSanitizer) and "
+    "counted in layers.tsan.reports_suppressed_inside_crossbeam_epoch; any other report is a violation",
     "a multi-thread configuration whose repeats all showed one schedule is counted under no_schedule_diversity: held for the input quantifier, inconclusive for the schedule quantifier",
 ]
 
@@ -125,19 +127,29 @@ def run(tier, seed, scratch, t0):
         if tbin:
             rs = sup.Result(PROP)
             args = ["--stride", "8", "--repeats", "3", "--repeats-light", "2", "--repeats-heavy", "2", "--stress", "2"]
-            env = {"TSAN_OPTIONS": "halt_on_error=1:second_deadlock_stack=1"}
+            # crossbeam-epoch (under rayon's work-stealing deques) orders memory reclamation with atomic fences, which
+            # ThreadSanitizer does not model: it reports free() in Global::collect against epoch-internal loads by another
+            # worker, both stacks entirely inside crossbeam_epoch (triaged on 11 reports: no frame of wow_mpq or of the
+            # harness on either access stack). Reports with a crossbeam_epoch frame are suppressed and counted; every
+            # other report halts the worker and is a violation.
+            supp = os.path.join(scratch, "tsan.supp")
+            with open(supp, "w") as f:
+                f.write("race:crossbeam_epoch\n")
+            env = {"TSAN_OPTIONS": f"halt_on_error=1:second_deadlock_stack=1:suppressions={supp}:print_suppressions=1"}
             sup.run_workers(rs, tbin, args, tier, seed, scratch, nshards=NSHARDS, case_timeout=900, label="tsan", env_extra=env,
                             total_timeout=2400, confirm_hang=False)
-            reports = 0
+            reports = suppressed = 0
             for name in sorted(os.listdir(scratch)):
                 if name.startswith("stderr-tsan"):
                     try:
-                        reports += len(TSAN_RE.findall(open(os.path.join(scratch, name), errors="replace").read()))
+                        text = open(os.path.join(scratch, name), errors="replace").read()
                     except OSError:
-                        pass
+                        continue
+                    reports += len(TSAN_RE.findall(text))
+                    suppressed += sum(int(n) for n in re.findall(r"^\s*(\d+) race:crossbeam_epoch", text, re.M))
             _rekey_tsan(rs, scratch)
             tsan.update({"cases": rs.cases, "calls": rs.counters.get("calls", 0), "slots_compared": rs.counters.get("slots_compared", 0),
-                         "report_blocks": reports, "verdicts": dict(rs.verdicts), "slice": "every configuration with mix(idx) % 8 == 0; 3 repeats (2 for requests of >= 999 names)",
+                         "report_blocks": reports, "reports_suppressed_inside_crossbeam_epoch": suppressed, "verdicts": dict(rs.verdicts), "slice": "every configuration with mix(idx) % 8 == 0; 3 repeats (2 for requests of >= 999 names)",
                          "max_concurrent_tasks": rs.extras.get("max_concurrent_tasks", 0)})
             if rs.cases == 0:
                 res.add_inconclusive("tsan-layer-ran-nothing")
